@@ -364,6 +364,18 @@ fn run_all(rep: &mut Report) {
     check_codec("RawMapMessage", true, &frames, &RawMapMessageDecoder::default,
         &|item: MapMessage<BytesMut, BytesMut>, out: &mut BytesMut| RawMapMessageEncoder::default().encode(item, out).is_ok(), rep);
 
+    // ---- TYPED (Recon-bodied) map operations / messages: the decoder of typed map lane commands and of map downlink events
+    let ops: Vec<MapOperation<i32, i32>> = vec![MapOperation::Update { key: 1, value: 2 }, MapOperation::Remove { key: 12 }, MapOperation::Clear,
+        MapOperation::Update { key: -5, value: 100 }, MapOperation::Remove { key: 123 }];
+    let frames: Vec<Vec<u8>> = ops.iter().map(|op| enc(MapOperationEncoder::default(), op.clone())).collect();
+    check_codec("MapOperation(typed i32)", true, &frames, &MapOperationDecoder::<i32, i32>::default,
+        &|item: MapOperation<i32, i32>, out: &mut BytesMut| MapOperationEncoder::default().encode(item, out).is_ok(), rep);
+    let msgs: Vec<MapMessage<i32, i32>> = vec![MapMessage::Update { key: 1, value: 2 }, MapMessage::Remove { key: 12 }, MapMessage::Clear, MapMessage::Take(3),
+        MapMessage::Drop(1), MapMessage::Update { key: -5, value: 100 }, MapMessage::Remove { key: 123 }];
+    let frames: Vec<Vec<u8>> = msgs.iter().map(|m| enc(MapMessageEncoder::default(), m.clone())).collect();
+    check_codec("MapMessage(typed i32)", true, &frames, &MapMessageDecoder::<i32, i32>::default,
+        &|item: MapMessage<i32, i32>, out: &mut BytesMut| MapMessageEncoder::default().encode(item, out).is_ok(), rep);
+
     // ---- lane requests / responses (raw map)
     let frames: Vec<Vec<u8>> = map_messages().into_iter().take(8).map(|m| enc(RawMapLaneRequestEncoder::default(), LaneRequest::Command(m)))
         .chain([enc(RawMapLaneRequestEncoder::default(), LaneRequest::<MapMessage<&[u8], &[u8]>>::Sync(id)), enc(RawMapLaneRequestEncoder::default(), LaneRequest::<MapMessage<&[u8], &[u8]>>::InitComplete)]).collect();
@@ -492,7 +504,7 @@ fn codec_contract() {
     let _ = std::fs::remove_file(&progress);
     rep.evaluations += robust_evals;
     std::panic::set_hook(prev);
-    println!("BX-SAMPLE 14 codec pairs of swimos_agent_protocol; streams of 1 and 2 messages, every 2-chunk cut, every 3-chunk cut of streams <= 48 bytes, prefixes/tag/small byte corruptions");
+    println!("BX-SAMPLE 16 codec pairs of swimos_agent_protocol; streams of 1 and 2 messages, every 2-chunk cut, every 3-chunk cut of streams <= 48 bytes, prefixes/tag/small byte corruptions");
     let mut failed = false;
     let slug = |c: &str| c.replace(|ch: char| !ch.is_ascii_alphanumeric(), "_");
     for c in &rep.codecs {
